@@ -36,6 +36,8 @@ import (
 	"encoding/hex"
 	"encoding/json"
 	"fmt"
+	"io"
+	"log/slog"
 	"net/http"
 	"net/http/httptest"
 	"os"
@@ -117,7 +119,10 @@ type c12Case struct {
 	MaxLen   int64 `json:"maxlen"` // RelayOption.MaxMessageLength (0 = 1 MiB); every client frame is shorter
 	// Opts: 0 = SendTimeout 30 s, ping every minute; 1 = SendTimeout 0 (no write deadline), ping every minute;
 	// 2 = SendTimeout 0 and PingDuration 0 (both switched off); 3 = SendTimeout 30 s, PingDuration 0
-	Opts   int        `json:"opts"`
+	// 4 = no RelayOption at all (NewRelay(h, nil): the defaults, receive rate 10/s with burst 10, limit 100000 bytes)
+	Opts int `json:"opts"`
+	// MuxLog: the ServeMux has a Logger
+	MuxLog bool       `json:"muxlog,omitempty"`
 	Frames []c12Frame `json:"frames"`
 	// observation
 	RanLockstep bool      `json:"ran_lockstep"` // lock-step requested and no wait timed out
@@ -636,10 +641,17 @@ func c12Run(c *c12Case) {
 	case 3:
 		opt.PingDuration = 0
 	}
+	if c.Opts == 4 {
+		opt = nil
+	}
 	relay := mocrelay.NewRelay(rec.handler(), opt)
 	var h http.Handler = relay
 	if c.Mux {
-		h = &mocrelay.ServeMux{Relay: relay}
+		m := &mocrelay.ServeMux{Relay: relay}
+		if c.MuxLog {
+			m.Logger = slog.New(slog.NewTextHandler(io.Discard, nil))
+		}
+		h = m
 	}
 	srv := httptest.NewServer(h)
 	defer srv.Close()
@@ -800,6 +812,7 @@ type c12Gen struct {
 	r      *common.Rand
 	serial int
 	sent   []*common.JEvent // genuine events already sent in text EVENT frames of this case
+	big    bool             // now and then a valid REQ of 40..60 KB
 }
 
 func c12Hex(seed string) string {
@@ -1044,6 +1057,18 @@ func (g *c12Gen) validFrame(i int) c12Built {
 		// the same genuine event again: a well-formed valid authentic message, to be forwarded again
 		e := *common.Pick(r, g.sent)
 		return g.eventMsg("event_again", "EVENT", &e, true, "ok")
+	}
+	if g.big && r.Chance(25) {
+		// a valid REQ of 40..60 KB: one filter with 600..880 ids (well inside the default limit of 100000 bytes)
+		sub := g.subID(i)
+		ids := make([]string, 600+r.Intn(281))
+		for j := range ids {
+			ids[j] = c12Hex("big" + strconv.Itoa(j))
+		}
+		f := c12RFilter{IDs: &ids}
+		m := c12RMsg{Label: "REQ", Sub: sub, Filters: []c12RFilter{f}}
+		return c12Built{cls: "req_big", payload: []byte(c12MsgJSON("REQ", c12JSON(sub), c12FilterJSON(f))), parse: "REQ", valid: true,
+			verify: "na", key: c12RenderMsg(m), sub: &sub}
 	}
 	switch r.Intn(10) {
 	case 0, 1:
@@ -1385,9 +1410,14 @@ func c12Generate(r *common.Rand, idx int) c12Case {
 	g := &c12Gen{r: r}
 	c := c12Case{Lockstep: r.Chance(60), Mux: r.Bool()}
 	if r.Chance(30) {
-		c.Opts = 1 + r.Intn(3)
+		c.Opts = 1 + r.Intn(4)
 	}
+	c.MuxLog = c.Mux && r.Bool()
+	g.big = c.Opts == 4 || r.Chance(4)
 	n := 3 + r.Intn(12)
+	if c.Opts == 4 && n > 9 {
+		n = 9 // the default receive rate limit (10/s, burst 10) would only slow the case down
+	}
 	defectAt, which := -1, 0
 	if r.Chance(9) {
 		defectAt, which = r.Intn(n), r.Intn(3)
@@ -1433,6 +1463,9 @@ func c12Generate(r *common.Rand, idx int) c12Case {
 	}
 	if r.Chance(40) {
 		c.MaxLen = int64(longest + 16 + r.Intn(48))
+	}
+	if c.Opts == 4 {
+		c.MaxLen = 100000 // what NewDefaultRelayOption says
 	}
 	for i := range c.Frames {
 		c.Frames[i].Out = g.outs(i == len(c.Frames)-1, c.MaxLen)
